@@ -883,6 +883,48 @@ Proof.
   apply safe_join_resolves. constructor; [exact S|constructor].
 Qed.
 
+(* the single colour file: two safe names below the cache directory, whatever tile links to it *)
+Lemma hex2_digitish v : 0 <= v < 256 -> Forall digitish (hex2 v).
+Proof.
+  intro H. unfold hex2. constructor; [|constructor; [|constructor]]; apply digit_char_digitish.
+  - split; [apply Z.div_pos; lia | apply Z.div_lt_upper_bound; lia].
+  - apply Z.mod_pos_bound; lia.
+Qed.
+
+Lemma hexcolor_digitish color : Forall (fun v => 0 <= v < 256) color -> Forall digitish (flat_map hex2 color).
+Proof.
+  induction 1 as [|v c Hv Hc IH]; cbn [flat_map]; [constructor|].
+  apply Forall_app; split; [apply hex2_digitish; assumption|exact IH].
+Qed.
+
+Lemma sct_name_safe : safe sct_name.
+Proof.
+  unfold safe. split; [intro H; vm_compute in H; discriminate H|].
+  split; [|split; intro H; vm_compute in H; discriminate H].
+  intro H. vm_compute in H. repeat (destruct H as [H|H]; [discriminate H|]). exact H.
+Qed.
+
+Lemma single_color_location_resolves cwd cache_dir color ext :
+  color <> [] -> Forall (fun v => 0 <= v < 256) color -> ~ In 47 (s2z ext) ->
+  safe (flat_map hex2 color ++ 46 :: s2z ext) /\
+  resolve cwd (single_color_location cache_dir color ext) =
+  resolve cwd cache_dir ++ [sct_name; flat_map hex2 color ++ 46 :: s2z ext].
+Proof.
+  intros Hne Hc He.
+  assert (S : safe (flat_map hex2 color ++ 46 :: s2z ext)).
+  { apply safe_digit_led; [| apply hexcolor_digitish; assumption | intros [K|K]; [discriminate|contradiction]].
+    destruct color as [|v c]; [contradiction|]. cbn [flat_map]. unfold hex2. cbn [app]. discriminate. }
+  split; [exact S|]. unfold single_color_location. apply safe_join_resolves.
+  constructor; [exact sct_name_safe|]. constructor; [exact S|constructor].
+Qed.
+
+(* the doctest of _single_color_tile_location: FileCache('/tmp/cache/', 'png'), colour (254, 0, 4) *)
+Example single_color_location_example :
+  single_color_location (s2z "/tmp/cache/") [254; 0; 4] "png" = s2z "/tmp/cache/single_color_tiles/fe0004.png"
+  /\ resolve [] (single_color_location (s2z "/tmp/cache/") [254; 0; 4] "png")
+     = resolve [] (s2z "/tmp/cache/") ++ [sct_name; s2z "fe0004.png"].
+Proof. split; vm_compute; reflexivity. Qed.
+
 (* with the request's SCALE text in the name (the code must not do that) the legend file leaves the directory *)
 Example legend_raw_scale_escapes :
   is_prefix (resolve [] [47; 108]) (resolve [] (legend_location [47; 108] ([97; 45] ++ [46; 46; 47; 46; 46; 47; 46; 46; 47; 120]) "png")) = false.
